@@ -30,13 +30,127 @@ type lit struct {
 	val int64
 }
 
+// pkgIntConsts maps the integer constants declared at package level in the directory of `file`
+// (name = integer literal, or a product/sum of integer literals) to their values, so that a body
+// that says `reportTimeslotTolerance` instead of 432 yields the same (operator, value) pair.  Files
+// whose build constraint excludes the build this binary is (test / !test) are skipped.
+func pkgIntConsts(file string) map[string]int64 {
+	out := map[string]int64{}
+	dir := filepath.Dir(file)
+	names, _ := filepath.Glob(filepath.Join(dir, "*.go"))
+	fs := token.NewFileSet()
+	var eval func(e ast.Expr) (int64, bool)
+	eval = func(e ast.Expr) (int64, bool) {
+		switch x := e.(type) {
+		case *ast.BasicLit:
+			if x.Kind == token.INT {
+				v, err := strconv.ParseInt(x.Value, 0, 64)
+				return v, err == nil
+			}
+		case *ast.ParenExpr:
+			return eval(x.X)
+		case *ast.Ident:
+			v, ok := out[x.Name]
+			return v, ok
+		case *ast.BinaryExpr:
+			a, ok1 := eval(x.X)
+			b, ok2 := eval(x.Y)
+			if ok1 && ok2 {
+				switch x.Op {
+				case token.MUL:
+					return a * b, true
+				case token.ADD:
+					return a + b, true
+				case token.SUB:
+					return a - b, true
+				case token.SHL:
+					if b >= 0 && b < 63 {
+						return a << uint(b), true
+					}
+				}
+			}
+		case *ast.CallExpr: // uint32(432)
+			if len(x.Args) == 1 {
+				if id, ok := x.Fun.(*ast.Ident); ok && (strings.HasPrefix(id.Name, "uint") || strings.HasPrefix(id.Name, "int")) {
+					return eval(x.Args[0])
+				}
+			}
+		}
+		return 0, false
+	}
+	test := isTestBuild()
+	for pass := 0; pass < 2; pass++ { // second pass resolves constants defined in terms of others
+		for _, n := range names {
+			if strings.HasSuffix(n, "_test.go") {
+				continue
+			}
+			src, err := os.ReadFile(n)
+			if err != nil {
+				continue
+			}
+			head := string(src)
+			if i := strings.Index(head, "package "); i >= 0 {
+				head = head[:i]
+			}
+			if strings.Contains(head, "go:build") {
+				wantsTest := strings.Contains(head, "go:build test") || strings.Contains(head, "&& test") || strings.Contains(head, "test &&")
+				wantsNot := strings.Contains(head, "!test")
+				if strings.Contains(head, "verif") && !strings.Contains(head, "!verif") {
+					continue // instrumentation files
+				}
+				if (wantsNot && test) || (wantsTest && !wantsNot && !test) {
+					continue
+				}
+			}
+			f, err := parser.ParseFile(fs, n, src, 0)
+			if err != nil {
+				continue
+			}
+			for _, d := range f.Decls {
+				gd, ok := d.(*ast.GenDecl)
+				if !ok || gd.Tok != token.CONST {
+					continue
+				}
+				for _, sp := range gd.Specs {
+					vs, ok := sp.(*ast.ValueSpec)
+					if !ok || len(vs.Names) != len(vs.Values) {
+						continue
+					}
+					for i, nm := range vs.Names {
+						if v, ok := eval(vs.Values[i]); ok {
+							out[nm.Name] = v
+						}
+					}
+				}
+			}
+		}
+	}
+	return out
+}
+
 // funcLits collects (operator, integer literal) pairs of binary expressions and
-// op-assignments in the body of the named function.
+// op-assignments in the body of the named function; an operand that names an integer
+// constant of the package counts as the literal it stands for.
 func funcLits(file, fn string) ([]lit, error) {
 	fs := token.NewFileSet()
 	f, err := parser.ParseFile(fs, file, nil, 0)
 	if err != nil {
 		return nil, err
+	}
+	consts := pkgIntConsts(file)
+	// constants local to the file or function shadow nothing here: look them up the same way
+	intOf := func(e ast.Expr) (int64, bool) {
+		switch x := e.(type) {
+		case *ast.BasicLit:
+			if x.Kind == token.INT {
+				v, err := strconv.ParseInt(x.Value, 0, 64)
+				return v, err == nil
+			}
+		case *ast.Ident:
+			v, ok := consts[x.Name]
+			return v, ok
+		}
+		return 0, false
 	}
 	var out []lit
 	found := false
@@ -49,19 +163,13 @@ func funcLits(file, fn string) ([]lit, error) {
 		ast.Inspect(fd.Body, func(n ast.Node) bool {
 			switch e := n.(type) {
 			case *ast.BinaryExpr:
-				if bl, ok := e.Y.(*ast.BasicLit); ok && bl.Kind == token.INT {
-					v, err := strconv.ParseInt(bl.Value, 0, 64)
-					if err == nil {
-						out = append(out, lit{e.Op.String(), v})
-					}
+				if v, ok := intOf(e.Y); ok {
+					out = append(out, lit{e.Op.String(), v})
 				}
 			case *ast.AssignStmt:
 				if len(e.Rhs) == 1 && e.Tok != token.ASSIGN && e.Tok != token.DEFINE {
-					if bl, ok := e.Rhs[0].(*ast.BasicLit); ok && bl.Kind == token.INT {
-						v, err := strconv.ParseInt(bl.Value, 0, 64)
-						if err == nil {
-							out = append(out, lit{e.Tok.String(), v})
-						}
+					if v, ok := intOf(e.Rhs[0]); ok {
+						out = append(out, lit{e.Tok.String(), v})
 					}
 				}
 			}
